@@ -2,6 +2,7 @@
 use vstd::prelude::*;
 use vstd::string::*;
 use vstd::utf8::*;
+use std::collections::HashMap;
 verus! {
 
 // ===== prelude: ../_common/format.rs =====
@@ -127,6 +128,66 @@ pub assume_specification [std::string::String::insert_str] (s: &mut std::string:
 pub assume_specification [<String as PartialEq<str>>::eq] (a: &String, b: &str) -> (r: bool)
     ensures
         r == (a@ == b@);
+
+
+// ===== prelude: prelude_data.rs =====
+// TRUSTED stand-ins for the value model (src/datamodel/mod.rs) as far as the value codec touches it.
+
+pub type SourceId = usize;
+
+/// `Arc<Mutex<Data>>` plus flags: opaque here; container payloads are not under contract
+#[verifier::external_body]
+pub struct DataArc {
+    _p: (),
+}
+
+/// the text `to_string` produces for a number (uninterpreted; `str::parse` is assumed to invert it)
+pub trait NumText {
+    spec fn num_text(&self) -> Seq<char>;
+}
+
+impl NumText for i64 {
+    uninterp spec fn num_text(&self) -> Seq<char>;
+}
+
+impl NumText for f64 {
+    uninterp spec fn num_text(&self) -> Seq<char>;
+}
+
+pub open spec fn i64_text(v: i64) -> Seq<char> {
+    v.num_text()
+}
+
+pub open spec fn f64_text(v: f64) -> Seq<char> {
+    v.num_text()
+}
+
+/// R19: `val.to_string()` on an i64 / f64
+#[verifier::external_body]
+pub fn verif_num_to_string<T: NumText + std::string::ToString>(v: &T) -> (r: String)
+    ensures
+        r@ == v.num_text(),
+{
+    v.to_string()
+}
+
+/// R19: the element loops of the container variants (`for v in val { self.write_data_arc(v); }` and the map loop):
+/// NOT under contract (they lock each element's mutex and iterate a HashMap); only the sticky error flag is assumed
+#[verifier::external_body]
+pub fn verif_write_array_items<W: Write>(w: &mut DefaultProtocolWriter<W>, val: &Vec<DataArc>)
+    ensures
+        !old(w).ok ==> !final(w).ok && final(w).writer.out() == old(w).writer.out(),
+{
+    unimplemented!()
+}
+
+#[verifier::external_body]
+pub fn verif_write_map_items<W: Write>(w: &mut DefaultProtocolWriter<W>, val: &HashMap<String, DataArc>)
+    ensures
+        !old(w).ok ==> !final(w).ok && final(w).writer.out() == old(w).writer.out(),
+{
+    unimplemented!()
+}
 
 
 broadcast use {trusted_axioms::axiom_str_len_fits};
@@ -355,6 +416,59 @@ pub proof fn lemma_utf8_injective(a: Seq<char>, b: Seq<char>)
     encode_utf8_decode_utf8(b);
 }
 
+
+// ===== spec: spec_data.rs =====
+// Byte format of data values (DESIGN appendix A.1: enc_data): tag, then the payload.
+
+/// the scalar variants: everything except Array and Map
+pub open spec fn data_scalar(d: Data) -> bool {
+    !(d is Array) && !(d is Map)
+}
+
+pub open spec fn data_tag(d: Data) -> u64 {
+    match d {
+        Data::Null() => 0,
+        Data::Integer(_) => 1,
+        Data::Double(_) => 2,
+        Data::String(_) => 3,
+        Data::Boolean(_) => 4,
+        Data::Array(_) => 5,
+        Data::Map(_) => 6,
+        Data::Error(_) => 7,
+        Data::Source(_) => 8,
+        Data::None() => 9,
+    }
+}
+
+/// payload of a scalar value
+pub open spec fn enc_data_payload(d: Data) -> Seq<u8> {
+    match d {
+        Data::Integer(v) => enc_str(encode_utf8(i64_text(v))),
+        Data::Double(v) => enc_str(encode_utf8(f64_text(v))),
+        Data::String(s) => enc_str(encode_utf8(s@)),
+        Data::Boolean(b) => enc_bool(b),
+        Data::Error(s) => enc_str(encode_utf8(s@)),
+        Data::Source(s) => enc_str(encode_utf8(s.source@)) + enc_uint(s.source_id as u64),
+        _ => Seq::<u8>::empty(),
+    }
+}
+
+pub open spec fn enc_data_scalar(d: Data) -> Seq<u8> {
+    enc_uint(data_tag(d)) + enc_data_payload(d)
+}
+
+/// every string inside the value has an encoding (< 4096 bytes)
+pub open spec fn data_scalar_encodable(d: Data) -> bool {
+    match d {
+        Data::Integer(v) => str_encodable(encode_utf8(i64_text(v))),
+        Data::Double(v) => str_encodable(encode_utf8(f64_text(v))),
+        Data::String(s) => str_encodable(encode_utf8(s@)),
+        Data::Error(s) => str_encodable(encode_utf8(s@)),
+        Data::Source(s) => str_encodable(encode_utf8(s.source@)),
+        _ => true,
+    }
+}
+
 pub const FSM_PROTOCOL_TYPE_PROTOCOL_VERSION: &'static str = "DwP1.1";
 pub const FSM_PROTOCOL_TYPE_OPT_STRING_NONE: u8 = 0x10;
 pub const FSM_PROTOCOL_TYPE_BOOLEAN_TRUE: u8 = 0x1F;
@@ -386,6 +500,31 @@ pub struct DefaultProtocolWriter<W> {
     pub ok: bool,
 }
 
+pub struct SourceCode {
+    pub source: String,
+
+    /// The unique Id of the script. Unique only inside the current life-cycle.\
+    /// Invalid if 0-
+    pub source_id: SourceId,
+}
+
+pub enum Data {
+    Integer(i64),
+    Double(f64),
+    String(String),
+    Boolean(bool),
+    Array(Vec<DataArc>),
+    /// A map, can also be used to store "object"-like data-structures.
+    Map(HashMap<String, DataArc>),
+    Null(),
+    /// Special placeholder to indicate an error
+    Error(String),
+    /// Special placeholder to indicate script source (from FSM definition) that needs to be evaluated by the datamodel.
+    Source(SourceCode),
+    /// Special placeholder to indicate empty content.
+    None(),
+}
+
 pub trait ProtocolWriter<W: Write> {
     // ghost view members added by rule R15 (no executable text)
     spec fn pout(&self) -> Seq<u8>;
@@ -410,6 +549,12 @@ fn write_option_string(&mut self, value: &Option<String>)
     ensures
         opt_str_encodable(*value) ==> wr_post(old(self).pok(), old(self).pout(), final(self).pok(), final(self).pout(), enc_opt_str(opt_str_bytes(*value))),
         !opt_str_encodable(*value) ==> !final(self).pok(),
+        !old(self).pok() ==> !final(self).pok() && final(self).pout() == old(self).pout(),
+;
+
+fn write_data(&mut self, value: &Data)
+    ensures
+        data_scalar(*value) && data_scalar_encodable(*value) ==> wr_post(old(self).pok(), old(self).pout(), final(self).pok(), final(self).pout(), enc_data_scalar(*value)),
         !old(self).pok() ==> !final(self).pok() && final(self).pout() == old(self).pout(),
 ;
 
@@ -530,11 +675,12 @@ proof {  assert(old(self).writer.out().push(if value { 0x1Fu8 } else { 0x10u8 })
 
         if self.ok {
             
-            let _ = self.writer.write_u8(if value {
+            let r = self.writer.write_u8(if value {
                 FSM_PROTOCOL_TYPE_BOOLEAN_TRUE
             } else {
                 FSM_PROTOCOL_TYPE_BOOLEAN_FALSE
             });
+            self.eval_result(r);
         }
     }
 
@@ -548,6 +694,54 @@ proof {  assert(old(self).writer.out().push(0x10u8) == old(self).writer.out() + 
             self.eval_result(r);
         }
     }
+
+fn write_data(&mut self, value: &Data) {
+        match value {
+            Data::Integer(val) => {
+                self.write_u8(1);
+                self.write_str(verif_num_to_string(val).as_str());
+            }
+            Data::Double(val) => {
+                self.write_u8(2);
+                self.write_str(verif_num_to_string(val).as_str());
+            }
+            Data::String(val) => {
+                self.write_u8(3);
+                self.write_str(val.as_str());
+            }
+            Data::Boolean(val) => {
+                self.write_u8(4);
+                self.write_boolean(*val);
+            }
+            Data::Array(val) => {
+                self.write_u8(5);
+                self.write_usize(val.len());
+                verif_write_array_items(self, val);
+            }
+            Data::Map(val) => {
+                self.write_u8(6);
+                self.write_usize(val.len());
+                verif_write_map_items(self, val);
+            }
+            Data::Error(s) => {
+                self.write_u8(7);
+                self.write_str(s.as_str());
+            }
+            Data::Source(s) => {
+                self.write_u8(8);
+                self.write_str(s.source.as_str());
+                self.write_usize(s.source_id);
+            }
+            Data::None() => {
+                self.write_u8(9);
+            }
+            Data::Null() => {
+                self.write_u8(0);
+            }
+        }
+    
+proof {  if self.pok() && data_scalar(*value) && data_scalar_encodable(*value) { assert(self.pout() =~= old(self).pout() + enc_data_scalar(*value)); } }
+}
 
 fn write_str(&mut self, value: &str) {
 proof {  assert((1usize << 4) == 16 && (1usize << 12) == 4096) by (bit_vector); }
